@@ -7,6 +7,7 @@ returned distributions through their public cdf, twice: by the cell-by-cell dyna
 (OpdaModel/RectProb.lean; proved in Lean to be that probability) and by Steck's determinant `band.steck` (identity cited);
 the two rationals must be equal on every table."""
 import copy
+import os
 import warnings
 from fractions import Fraction as Fr
 
@@ -56,7 +57,79 @@ def large_n_plan(rng, brng, tier):
             yield n, "ks", conf, brng, "small_confidence"
 
 
-def large_n_part(rep, rng, tier, ED, stats, brng):
+VERY_LARGE_NS = [100_001, 150_000, 300_000, 1_000_000]
+PG_VALIDATION_TOL = 1e-7
+
+
+def very_large_n_part(rep, tier, ED, stats, vrng, pg_checks):
+    """dkw / ks for n in the hundreds of thousands and at a million (the property holds "for every sample size n >= 1", ks to 1e-5 for
+    n > 100): one n of VERY_LARGE_NS per run in the quick tier (chosen by the seed), all of them and a log-uniform random one in the
+    thorough tier, plus n = 100 000; confidences 0.5, 0.95 and a random one.  The matrix algorithm is out of reach there (O(n^2 eps^2 log n));
+    P[D_n <= eps] is evaluated by the Pelz-Good expansion (ks_oracle.ks_cdf_pelz_good, truncation error ~ 0.05/n^2), which is first
+    validated against the matrix algorithm on the eps values of this very run at n >= 5000 (`pg_checks`, incl. n = 5000 and n = 20000):
+    if the two differ by more than 1e-7 anywhere the stratum is skipped (counted), never judged."""
+    import ks_oracle
+    have = {n for n, _e, _d in pg_checks}
+    for n in (5000, 20000):
+        if n not in have:
+            eps = 0.8276 / n ** 0.5          # about the median of D_n
+            pg_checks.append((n, eps, abs(ks_oracle.ks_cdf(n, eps) - ks_oracle.ks_cdf_pelz_good(n, eps))))
+    worst_dev = max(d for _n, _e, d in pg_checks)
+    rep.count("very_large_n:pelz_good_vs_matrix_algorithm_comparisons(n>=5000)", len(pg_checks))
+    rep.notes.append("Pelz-Good expansion vs Durbin matrix algorithm at n in %s: largest difference %.2e (allowed %.0e)"
+                     % (sorted({n for n, _e, _d in pg_checks}), worst_dev, PG_VALIDATION_TOL))
+    ns = [vrng.choice(VERY_LARGE_NS)] if tier == "quick" else VERY_LARGE_NS + [int(round(100_001 * 20 ** vrng.random()))]
+    for n in [100_000] + ns:
+        g = np.random.default_rng(vrng.getrandbits(63))
+        ys = g.permutation(n).astype(float) + 1.0
+        for method, conf in [("ks", 0.5), ("ks", 0.95), ("ks", round(0.05 + 0.9 * vrng.random(), 3)), ("dkw", vrng.choice([0.5, 0.95]))]:
+            finite = vrng.random() < 0.5
+            a, b = (0.0, float(n + 1)) if finite else (-INF, INF)
+            as_list = n <= 300_000 and vrng.random() < 0.5
+            inp = dict(n=n, confidence=conf, method=method, a=a, b=b, sample_container="list" if as_list else "float64 ndarray")
+            if not worst_dev <= PG_VALIDATION_TOL:
+                rep.skip("very_large_n:pelz_good_expansion_not_validated_against_the_matrix_algorithm_to_1e-7")
+                continue
+            rep.count("very_large_n:method=" + method)
+            rep.count("very_large_n:n=%d" % n if n in VERY_LARGE_NS or n == 100_000 else "very_large_n:n=random in 100001..2000020")
+            rep.count("very_large_n:confidence=%s" % ("<0.5" if conf < 0.5 else "0.5-0.9" if conf <= 0.9 else ">0.9"))
+            call = (f"lo, _, hi = EmpiricalDistribution.confidence_bands(np.arange(1., {n} + 1), {conf!r}, a={a!r}, b={b!r}, method={method!r}, "
+                    f"n_jobs=1)  # the sample in any order; levels lo.cdf(i), hi.cdf(i), i = 1..{n}")
+            try:
+                with warnings.catch_warnings():
+                    warnings.simplefilter("ignore")
+                    lo, pt, hi = ED.confidence_bands(ys.tolist() if as_list else ys, conf, a=a, b=b, method=method, n_jobs=1)
+            except Exception as e:  # noqa: BLE001
+                rep.violate(what="confidence_bands raised on a valid input", error=repr(e), input=inp, call=call)
+                continue
+            pts = np.concatenate([[0.5], np.arange(1, n + 1, dtype=float)])
+            L, U = lo.cdf(pts), hi.cdf(pts)
+            idx = np.arange(1, n + 1)
+            alpha, beta = np.asarray(L[1:], dtype=float), np.asarray(U[:-1], dtype=float)
+            cand = [float(np.max(idx / n - alpha)), float(np.max(beta - (idx - 1) / n))]
+            eps = max(cand)
+            want_a, want_b = np.clip(idx / n - eps, 0, 1), np.clip((idx - 1) / n + eps, 0, 1)
+            rep.case(("very_large_n", method, n, conf, a), sample=dict(inp, eps=eps))
+            if not (np.all(np.abs(alpha - want_a) <= 1e-12) and np.all(np.abs(beta - want_b) <= 1e-12)):
+                rep.violate(what="dkw/ks band levels are not i/n -+ eps clipped to [0,1] for a single eps", input=inp,
+                            observed=dict(eps_lower=cand[0], eps_upper=cand[1]), call=call)
+                continue
+            cov = ks_oracle.ks_cdf_pelz_good(n, eps)
+            ref = float(stats.kstwo(n).cdf(eps))
+            if abs(cov - ref) > 1e-6:
+                rep.skip("very_large_n_oracles_disagree(Pelz-Good expansion vs scipy.kstwo.cdf)>1e-6")
+                continue
+            tol = 1e-5
+            ok = (cov >= conf - 1e-9) if method == "dkw" else (abs(cov - conf) <= tol + 1e-7)
+            if not ok:
+                rep.violate(what="simultaneous coverage of the band, P[D_n <= eps] for the eps read off the returned levels (Pelz-Good expansion "
+                                 "K0 + K1/n^(1/2) + K2/n + K3/n^(3/2) of the Kolmogorov-Smirnov distribution, validated in this run against the "
+                                 "Durbin matrix algorithm to 1e-7), is not the nominal one",
+                            input=inp, expected=(f">= {conf}" if method == "dkw" else f"= {conf} +- {tol}"), observed=cov, eps=eps,
+                            limiting_law_quantile_over_sqrt_n=float(stats.kstwobign.ppf(conf)) / n ** 0.5, call=call)
+
+
+def large_n_part(rep, rng, tier, ED, stats, brng, pg_checks=None):
     """dkw / ks beyond the reach of the exact rational evaluation: n in the hundreds, thousands and tens of thousands"""
     import ks_oracle
     for n, method, conf, r, stratum in large_n_plan(rng, brng, tier):
@@ -90,6 +163,8 @@ def large_n_part(rep, rng, tier, ED, stats, brng):
             continue
         cov = ks_oracle.ks_cdf(n, eps)
         ref = float(stats.kstwo(n).cdf(eps))
+        if pg_checks is not None and n >= 5000 and method == "ks":
+            pg_checks.append((n, eps, abs(cov - ks_oracle.ks_cdf_pelz_good(n, eps))))    # validation of the expansion used beyond 10^5
         if abs(cov - ref) > 1e-6:
             rep.skip("large_n_oracles_disagree(matrix algorithm vs scipy.kstwo.cdf)>1e-6")
             continue
@@ -107,7 +182,7 @@ def run(seed, tier, replay=None):
     from opda.nonparametric import EmpiricalDistribution as ED
     from scipy import stats
     rep = C.Report("C01", seed, tier)
-    rng = C.rng_for("C01", seed)
+    rng = rng0 = C.rng_for("C01", seed)
     drv = C.Driver()
     N_TRIALS = 100_000
     if tier == "quick":
@@ -144,14 +219,45 @@ def run(seed, tier, replay=None):
         n1 = n + rng.choice([1, 2, 3]) if j % 4 < 3 else max(2, n - 1)
         plan.append((m2, n, 0.5))
         prime_same[len(plan) - 1] = (m1, n1, rng.choice([0.5, 0.9]))
+    # ---- the n_jobs axis of the ld methods (the property's band is the one `confidence_bands` returns for EVERY n_jobs; n_jobs = 1 is
+    # computed in-process, n_jobs >= 2 and the default None [= cpu count] hand the order statistics to a multiprocessing pool): worker
+    # counts that do not divide n (n = 5 with 2 and 3, n = 7, 8 with 3, n = cpu count + 1 with None), that divide it, and that are
+    # >= n; judged like every other ld case by the exact rectangle probability inside the Beta window.
+    njobs_of = {}
+    cpu = os.cpu_count() or 1
+    jrng = C.rng_for("C01.ld_n_jobs", seed)        # own generator: the strata above and below are the ones they were
+    nj_not_dividing = [(5, 2), (5, 3), (7, 3), (8, 3), (7, 2), (3, 2), (9, 2), (10, 3), (11, 4), (9, 4)]
+    nj_dividing = [(6, 2), (6, 3), (8, 2), (4, 2), (9, 3), (8, 4)]
+    nj_at_least_n = [(2, 3), (3, 3), (2, 2), (1, 2), (3, 16)]
+    nj_default = [(5, None), (3, None)] + ([(cpu + 1, None)] if cpu <= 16 else [])
+    if tier == "quick":
+        nj_cases = nj_not_dividing[:2] + [jrng.choice(nj_not_dividing[2:4]), jrng.choice(nj_not_dividing[4:])] \
+            + [jrng.choice(nj_dividing), jrng.choice(nj_at_least_n), jrng.choice(nj_default[:2])] + nj_default[2:]
+    else:
+        nj_cases = nj_not_dividing + nj_dividing + nj_at_least_n + nj_default
+    for j, (n, nj) in enumerate(nj_cases):
+        for m in (("ld_equal_tailed", "ld_highest_density") if tier != "quick" else (("ld_equal_tailed", "ld_highest_density")[j % 2],)):
+            if m == "ld_highest_density" and n < 2:
+                continue
+            for c in ((0.5, 0.95) if tier != "quick" else (jrng.choice([0.5, 0.5, 0.9, 0.95]),)):
+                plan.append((m, n, c))
+                njobs_of[len(plan) - 1] = nj
     reqs, meta = [], []
     for pi, (method, n, conf) in enumerate(plan):
+        nj = njobs_of.get(pi, 1)
+        rng = jrng if pi in njobs_of else rng0
         ys = [float(i) for i in range(1, n + 1)]
         rng.shuffle(ys)
         finite = rng.random() < 0.5
         a, b = (0.0, float(n + 1)) if finite else (-INF, INF)
         gseed = rng.randrange(2 ** 31)
-        inp = dict(n=n, confidence=conf, method=method, a=a, b=b, generator_seed=gseed)
+        inp = dict(n=n, confidence=conf, method=method, a=a, b=b, generator_seed=gseed, n_jobs=nj)
+        if pi in njobs_of:
+            resolved = cpu if nj is None else nj
+            inp["n_jobs_resolved"] = resolved
+            rep.count("ld_n_jobs=%s" % nj)
+            rep.count("ld_n_jobs:workers %s" % ("do not divide n (n > workers)" if n > resolved and n % resolved else
+                                                 "divide n" if n >= resolved else "exceed n"))
         if pi in prime:
             m1, c1 = prime[pi]
             inp["preceded_by"] = dict(method=m1, confidence=c1, generator_seed=gseed, note="same sample, a generator in the same state")
@@ -179,10 +285,12 @@ def run(seed, tier, replay=None):
         try:
             with warnings.catch_warnings():
                 warnings.simplefilter("ignore")
-                lo, pt, hi = ED.confidence_bands(ys, conf, a=a, b=b, method=method, generator=gen, n_jobs=1)
+                lo, pt, hi = ED.confidence_bands(ys, conf, a=a, b=b, method=method, generator=gen, n_jobs=nj)
         except Exception as e:
             rep.violate(what="confidence_bands raised on a valid input", error=repr(e), input=inp, call="EmpiricalDistribution.confidence_bands")
             continue
+        inp["call"] = (f"lo, _, hi = EmpiricalDistribution.confidence_bands({ys!r}, {conf!r}, a={a!r}, b={b!r}, method={method!r}, "
+                       f"generator=np.random.default_rng({gseed}), n_jobs={nj!r})  # levels lo.cdf(i), hi.cdf(i), i = 1..{n}")
         L, U = read_levels(lo, hi, n, finite)
         alpha = [float(L[i]) for i in range(1, n + 1)]        # lower level at the i-th order statistic
         beta = [float(U[i - 1]) for i in range(1, n + 1)]     # upper level just below it
@@ -199,6 +307,7 @@ def run(seed, tier, replay=None):
             continue
         reqs.append(f"{C.flist(alpha)} {C.flist(beta)}")
         meta.append((inp, alpha, beta))
+    rng = rng0
     import time
     t0 = time.time()
     replies_rect = drv.run([("band.rect", a) for a in reqs])
@@ -218,7 +327,8 @@ def run(seed, tier, replay=None):
                          input=inp, lower_levels=alpha, upper_levels=beta, rect=r[0], steck=r_steck[0])
             continue
         conf, method, n = inp["confidence"], inp["method"], inp["n"]
-        rep.case((method, n, conf, inp["a"]), sample=dict(inp, coverage=float(cov), lower_levels=alpha[:4], upper_levels=beta[:4]))
+        rep.case((method, n, conf, inp["a"]) + (() if inp["n_jobs"] == 1 else (inp["n_jobs"],)),
+                 sample=dict(inp, coverage=float(cov), lower_levels=alpha[:4], upper_levels=beta[:4]))
         c = Fr(conf)
         if method == "dkw":
             ok = cov >= c - Fr(1, 10 ** 12)
@@ -243,8 +353,11 @@ def run(seed, tier, replay=None):
             rep.violate(what="simultaneous coverage of the band (exact rectangle probability of the uniform order statistics on the "
                              "code's level tables) is not the nominal one",
                         input=inp, expected=exp, observed=float(cov), lower_levels=alpha, upper_levels=beta,
-                        call="EmpiricalDistribution.confidence_bands")
-    large_n_part(rep, rng, tier, ED, stats, C.rng_for("C01.large_n.thousands", seed))
+                        call=inp.get("call", "EmpiricalDistribution.confidence_bands")
+                        + ("" if "preceded_by" not in inp else "  # after the call described in input.preceded_by"))
+    pg_checks = []
+    large_n_part(rep, rng, tier, ED, stats, C.rng_for("C01.large_n.thousands", seed), pg_checks)
+    very_large_n_part(rep, tier, ED, stats, C.rng_for("C01.very_large_n", seed), pg_checks)
     return rep.result(
         rule="(method, n, confidence, finite/infinite bounds): dkw/ks for n up to 40 (quick) / 80 (thorough) at confidences incl. 0, 1e-12, "
              "1-1e-12, 1; ld_* for small n at a few confidences (each call simulates 100 000 trials). The level tables are read off the "
@@ -255,7 +368,10 @@ def run(seed, tier, replay=None):
              "thorough; ks at confidences 0.3, 0.5, 0.9, 0.95 + random there), dkw/ks: the levels must be clip(i/n -+ eps) (then, by theorem "
              "C01.dkw_ks_box_iff_sup, coverage = P[D_n <= eps]), and P[D_n <= eps] is evaluated by an independent Durbin/"
              "Marsaglia-Tsang-Wang matrix algorithm (cross-checked against scipy.stats.kstwo.cdf). ld history pairs: a call preceded "
-             "by another ld call (other method or confidence) with a generator in the same state.",
+             "by another ld call (other method or confidence) with a generator in the same state. ld n_jobs axis: n_jobs in {2, 3, 4, 16, None} "
+             "with worker counts that do not divide n / divide n / exceed n (multiprocessing path), same exact judgement. Very large n "
+             "(100 000, one of 100 001 / 150 000 / 300 000 / 1 000 000 by seed quick, all + a random one thorough; ks at 0.5, 0.95 + random, dkw): "
+             "levels clip(i/n -+ eps), P[D_n <= eps] by the Pelz-Good expansion validated against the matrix algorithm at n >= 5000 to 1e-7.",
         extra=dict(driver_lines=drv.lines, exact_tables=len(meta), seconds_rect_dp=round(t_rect, 2), seconds_steck_determinant=round(t_steck, 2)))
 
 
